@@ -463,22 +463,38 @@ pub fn grid(tier: Tier) -> Vec<Case> {
         v.push(Case { trk: Trk::Http, socket_workers: so, swarm_workers: sw, fault: probe("http:swarm:clean", "swarm-01", true), after_requests: 0, uptime_before_fault_s: 0 });
         v.push(Case { trk: Trk::Ws, socket_workers: so, swarm_workers: sw, fault: probe("ws:swarm:clean", "swarm-01", true), after_requests: 0, uptime_before_fault_s: 0 });
     }
-    // faults long after start-up (the supervision must not slow down or stop looking): the
-    // tracker serves requests for 17 s / 45 s first. A few per tracker; they run in parallel.
-    let late: Vec<u8> = tier.pick(vec![17, 45], vec![17, 33, 45, 70]);
-    for up in late {
-        v.push(Case { trk: Trk::UdpMio, socket_workers: 2, swarm_workers: 0, fault: probe("udp:socket:loop", "socket-02", true), after_requests: 1, uptime_before_fault_s: up });
-        v.push(Case { trk: Trk::UdpUring, socket_workers: 1, swarm_workers: 0, fault: probe("udp:socket:loop", "socket-01", false), after_requests: 1, uptime_before_fault_s: up });
-        v.push(Case { trk: Trk::UdpMio, socket_workers: 1, swarm_workers: 0, fault: probe("udp:cleaning:loop", "cleaning", true), after_requests: 1, uptime_before_fault_s: up });
-        v.push(Case { trk: Trk::Http, socket_workers: 2, swarm_workers: 2, fault: probe("http:swarm:request", "swarm-02", true), after_requests: 1, uptime_before_fault_s: up });
-        v.push(Case { trk: Trk::Http, socket_workers: 1, swarm_workers: 1, fault: probe("http:socket:accept", "socket-01", false), after_requests: 1, uptime_before_fault_s: up });
-        v.push(Case { trk: Trk::Ws, socket_workers: 2, swarm_workers: 2, fault: probe("ws:socket:conn", "socket-01", true), after_requests: 1, uptime_before_fault_s: up });
-        v.push(Case { trk: Trk::Ws, socket_workers: 1, swarm_workers: 2, fault: probe("ws:swarm:clean", "swarm-02", true), after_requests: 1, uptime_before_fault_s: up });
-    }
     let mut seen = std::collections::HashSet::new();
     v.retain(|c| seen.insert(c.clone()));
     v
 }
+
+/// Faults long after start-up (the supervision must not slow down or stop looking): the tracker
+/// serves requests for `uptime` seconds first. "Any moment of its life" is sampled by a ladder of
+/// uptimes (every 3 s from 11 s to 53 s in the quick tier, offset by the seed; every second from
+/// 11 s to 130 s in the thorough tier), the worker kind rotating along the ladder. The cases
+/// mostly sleep, so they all run in parallel; longest first.
+pub fn late_grid(tier: Tier, seed: u64) -> Vec<Case> {
+    let ups: Vec<u8> = match tier {
+        Tier::Quick => (0..15u64).map(|i| (11 + 3 * i + seed % 3) as u8).collect(),
+        Tier::Thorough => (11..=130u64).map(|u| u as u8).collect(),
+    };
+    let mut v = Vec::new();
+    for (i, up) in ups.into_iter().enumerate() {
+        let c = match (i as u64 + seed) % 7 {
+            0 => Case { trk: Trk::UdpMio, socket_workers: 2, swarm_workers: 0, fault: probe("udp:socket:loop", "socket-02", true), after_requests: 1, uptime_before_fault_s: up },
+            1 => Case { trk: Trk::UdpUring, socket_workers: 1, swarm_workers: 0, fault: probe("udp:socket:loop", "socket-01", false), after_requests: 1, uptime_before_fault_s: up },
+            2 => Case { trk: Trk::UdpMio, socket_workers: 1, swarm_workers: 0, fault: probe("udp:cleaning:loop", "cleaning", true), after_requests: 1, uptime_before_fault_s: up },
+            3 => Case { trk: Trk::Http, socket_workers: 2, swarm_workers: 2, fault: probe("http:swarm:request", "swarm-02", true), after_requests: 1, uptime_before_fault_s: up },
+            4 => Case { trk: Trk::Http, socket_workers: 1, swarm_workers: 1, fault: probe("http:socket:accept", "socket-01", false), after_requests: 1, uptime_before_fault_s: up },
+            5 => Case { trk: Trk::Ws, socket_workers: 2, swarm_workers: 2, fault: probe("ws:socket:conn", "socket-01", true), after_requests: 1, uptime_before_fault_s: up },
+            _ => Case { trk: Trk::Ws, socket_workers: 1, swarm_workers: 2, fault: probe("ws:swarm:clean", "swarm-02", true), after_requests: 1, uptime_before_fault_s: up },
+        };
+        v.push(c);
+    }
+    v.sort_by(|a, b| b.uptime_before_fault_s.cmp(&a.uptime_before_fault_s));
+    v
+}
+
 
 pub fn run(ctx: &mut Ctx) {
     ctx.confirm_runs = 2;
@@ -486,14 +502,18 @@ pub fn run(ctx: &mut Ctx) {
     ctx.assume("`return` faults are only injected where returning ends the worker function (UDP loops, single-listener HTTP/WS accept loop, HTTP swarm request stream with one socket worker)");
     ctx.run_regress::<Case, _>("faults", prop);
     let all = grid(ctx.tier);
-    let cases: Vec<Case> = match ctx.tier {
+    let early: Vec<Case> = match ctx.tier {
         Tier::Thorough => all,
         Tier::Quick => {
             // deterministic sample of the grid: every 3rd case, offset by the seed
             let off = (ctx.seed % 3) as usize;
-            all.into_iter().enumerate().filter(|(i, c)| i % 3 == off || c.uptime_before_fault_s > 0).map(|(_, c)| c).collect()
+            all.into_iter().enumerate().filter(|(i, _)| i % 3 == off).map(|(_, c)| c).collect()
         }
     };
+    // the late cases sleep most of the time: start them first and give them their own threads
+    let mut cases = late_grid(ctx.tier, ctx.seed);
+    ctx.threads = (ctx.threads + cases.len().min(24)).min(40);
+    cases.extend(early);
     let exhaustive = ctx.tier == Tier::Thorough;
     ctx.run_enum("faults", cases, exhaustive, prop);
     for l in ["udp-mio", "udp-uring", "http", "ws", "panic", "return", "setup-failure", "fault-long-after-start"] {
